@@ -39,7 +39,20 @@ def run_enum(prop, tier, legs, rule, nontrivial_counter, level="model_checking",
                 if leg.get("leakcheck"):
                     args.append("--leakcheck")
                 rr = vp.run_single(exes[leg["name"]], args, case_id, wrapper=leg.get("wrapper"))
-                sigs += [f["sig"] for f in rr.failures]
+                got = [f["sig"] for f in rr.failures]
+                want = [f["sig"] for f in _fails if f["id"] == case_id and f["leg"] == leg["name"]]
+                if not set(want) & set(got):
+                    # not reproducible alone: the failure may depend on what the same worker process did before (state kept between
+                    # calls).  Re-run the shard the case belongs to, exactly as before, up to this case: if the same case fails with
+                    # the same signature again, the failure is deterministic given that history and is reported as such.
+                    r2 = vp.run_one_shard(exes[leg["name"]], args, case_id % vp.NCPU, extra_env=leg.get("env"), wrapper=leg.get("wrapper"), upto=case_id)
+                    again = [f["sig"] for f in r2.failures if f["id"] == case_id]
+                    if set(want) & set(again):
+                        got += again
+                        for f in _fails:
+                            if f["id"] == case_id and f["leg"] == leg["name"] and f["sig"] in again and "history of its worker" not in f["text"]:
+                                f["text"] += "  [reproduces only after the history of its worker process (shard %d re-run up to this case): state is kept between calls]" % (case_id % vp.NCPU)
+                sigs += got
         return sigs
 
     violations, knowns, flaky = vp.triage(prop, all_fail, confirm)
